@@ -4,6 +4,7 @@ import (
 	"bytes"
 	"fmt"
 	"os"
+	"path/filepath"
 	"strings"
 	"testing"
 
@@ -149,7 +150,11 @@ func execR(c caseR) (overlap bool, err error) {
 		case "delbucket":
 			r, err = cl.Call("DELETE", "/"+b, nil, nil, nil)
 		case "mkbucket":
-			r, err = cl.Call("PUT", "/"+b, nil, nil, nil)
+			mc := cl
+			if o.By != "" && o.By != "root" {
+				mc = cl.As(creds(o.By))
+			}
+			r, err = mc.Call("PUT", "/"+b, nil, nil, nil)
 		case "put":
 			r, err = cl.Call("PUT", path, nil, nil, body(i))
 		case "put2":
@@ -310,6 +315,33 @@ func execR(c caseR) (overlap bool, err error) {
 			}
 		}
 	}
+	// Whatever the race, the bucket is there or it is not: a directory of its name that HeadBucket does not answer for
+	// with 200 (no owner, no ACL) is half a bucket
+	if _, serr := os.Stat(filepath.Join(sb.Root, b)); serr == nil && !exists && !(kf.Open(zombieFinding) && !strictR) {
+		return overlap, fmt.Errorf("after the race the bucket's directory exists but HeadBucket answers %d %s: what is left is no bucket (no owner / ACL) and not nothing either%s", hb.Status, hb.Code(), hist.String())
+	}
+	// A bucket that exists after the race through an acknowledged CreateBucket is a bucket in full: it has its owner and
+	// ACL (a deletion that was under way when it was created takes nothing of it along)
+	if exists && recreated {
+		// (who created it: the acknowledged CreateBucket that returned last)
+		creator, at := gw.DefaultRoot, int64(-1)
+		for i, o := range c.Ops {
+			if o.Kind == "mkbucket" && resp[i].OK() && res[i].Return > at {
+				at = res[i].Return
+				creator = gw.DefaultRoot
+				if o.By != "" && o.By != "root" {
+					creator = creds(o.By)
+				}
+			}
+		}
+		ar := cl.MustCall("GET", "/"+b, s3c.Q("acl", ""), nil, nil)
+		if !ar.OK() || !strings.Contains(string(ar.Body), "<ID>"+creator.Access+"</ID>") {
+			return overlap, fmt.Errorf("CreateBucket by %s was acknowledged during the race and the bucket exists, but GetBucketAcl answers %d %q: the bucket has lost its owner / ACL%s", creator.Access, ar.Status, trunc(string(ar.Body)), hist.String())
+		}
+		if lb := cl.As(creator).MustCall("GET", "/", nil, nil, nil); !lb.OK() || !strings.Contains(string(lb.Body), "<Name>"+b+"</Name>") {
+			return overlap, fmt.Errorf("CreateBucket by %s was acknowledged during the race and the bucket exists, but ListBuckets of its creator does not show it%s", creator.Access, hist.String())
+		}
+	}
 	// A bucket whose deletion was acknowledged exists again only through an acknowledged CreateBucket - whichever
 	// request of the race brought it back (an initiation, a read, an upload that failed in the end).
 	if exists && delAck && !recreated && !(kf.Open(zombieFinding) && !strictR) {
@@ -414,7 +446,11 @@ func TestC16Race(t *testing.T) {
 		n := rapid.IntRange(2, 4).Draw(t, "nops")
 		c.Ops = append(c.Ops, opR{Kind: "delbucket"})
 		for i := 1; i < n; i++ {
-			c.Ops = append(c.Ops, opR{Kind: rapid.SampledFrom([]string{"put", "put", "put2", "mpucomplete", "mpucreate", "mkbucket", "delbucket", "get"}).Draw(t, "kind"), Key: rapid.IntRange(0, 1).Draw(t, "key")})
+			o := opR{Kind: rapid.SampledFrom([]string{"put", "put", "put2", "mpucomplete", "mpucreate", "mkbucket", "mkbucket", "delbucket", "get"}).Draw(t, "kind"), Key: rapid.IntRange(0, 1).Draw(t, "key")}
+			if o.Kind == "mkbucket" {
+				o.By = rapid.SampledFrom([]string{"root", "carol", "carol", "alice"}).Draw(t, "mk_by")
+			}
+			c.Ops = append(c.Ops, o)
 		}
 		// the delete is not always the first to start
 		k := rapid.IntRange(0, n-1).Draw(t, "delpos")
@@ -438,6 +474,22 @@ func TestC16Race(t *testing.T) {
 					c.StallAt[i] = rapid.SampledFrom([]int{0, 1, 1, 2, 3, 6}).Draw(t, "stall_at")
 				}
 			}
+		}
+		if rapid.IntRange(0, 3).Draw(t, "pair") == 0 {
+			// DeleteBucket and one other request, the delete ahead by k of its steps when the other one starts and
+			// then held back until the other one is through (the windows between DeleteBucket's own steps)
+			o := opR{Kind: rapid.SampledFrom([]string{"mkbucket", "mkbucket", "put", "mpucreate", "mpucomplete"}).Draw(t, "pair_kind"), Key: rapid.IntRange(0, 1).Draw(t, "pair_key")}
+			if o.Kind == "mkbucket" {
+				o.By = rapid.SampledFrom([]string{"root", "carol", "carol", "alice"}).Draw(t, "pair_by")
+			}
+			k := rapid.IntRange(1, 4).Draw(t, "pair_ahead")
+			c.Ops = []opR{{Kind: "delbucket"}, o}
+			c.Schedule = []int{0}
+			for i := 0; i < k; i++ {
+				c.Schedule = append(c.Schedule, 1)
+			}
+			c.Schedule = append(c.Schedule, rapid.SliceOfN(rapid.IntRange(0, 3), 0, 20).Draw(t, "pair_tail")...)
+			c.Stall, c.StallAt = []int{200, 0}, []int{k, 0}
 		}
 		if rapid.IntRange(0, 3).Draw(t, "fresh") == 0 {
 			// competing creations of a bucket that does not exist yet
@@ -471,3 +523,10 @@ func TestC16Race(t *testing.T) {
 }
 
 func init() { handlers["C16R"] = pt.Wrap(runR); handlers["C16RS"] = pt.Wrap(runRStrict) }
+
+func trunc(s string) string {
+	if len(s) > 200 {
+		return s[:200]
+	}
+	return s
+}
